@@ -62,6 +62,11 @@ func c16Gen(seed uint64, tier string) any {
 				h += Pick(r, []string{" +", "; (", "\n// #EnableDice " + macroNames[mf] + " true"})
 			}
 		case 3:
+			if r.Bool() {
+				// several st values; a later value in parentheses is parsed with the parser's current flags
+				h = "^st" + Pick(r, []string{"A:1 B:(", "力量60 敏捷:(", " &枪=1d6 B:(", "A:1 B:2 C:(", "力量:50 hp:("}) + Pick(r, famSpellings[fam]) + ")"
+				break
+			}
 			h = "^st" + Pick(r, []string{" 力量60敏捷70", "力量:50 hp+1d4", " &手枪=1d6+2", " 力量+1d(", "力量60 敏捷" + Pick(r, famSpellings[fam]), " &枪=" + Pick(r, famSpellings[fam]), "力量=" + Pick(r, famSpellings[fam])})
 		case 4:
 			h = Pick(r, famSpellings[fam]) + Pick(r, []string{" +", "(", "[", "`{"})
@@ -204,7 +209,8 @@ func c16Exec(raw json.RawMessage, res *RunResult) {
 		}
 		var o *Outcome
 		parsed := false
-		if isProbe && c.Kind == "run" {
+		macroFree := !strings.Contains(c.Src, "#EnableDice")
+		if macroFree && c.Kind == "run" {
 			// Parse and run separately: the listing exists only if this input was accepted
 			o = DoCmd(vm, Cmd{Kind: "parse", Src: c.Src})
 			if o.Err == "" && o.Panic == "" {
@@ -228,11 +234,14 @@ func c16Exec(raw json.RawMessage, res *RunResult) {
 			res.Violate("config-changed", "Context.Config differs after command %d\n  src=%q\n  before=%s\n  after= %s", i, c.Src, want, got)
 			want = got
 		}
-		if !isProbe || o.Panic != "" {
-			if strings.Contains(c.Src, "#EnableDice") {
+		if !macroFree || o.Panic != "" {
+			if !macroFree {
 				res.Fault("macro_in_history")
 			}
 			continue
+		}
+		if !isProbe {
+			res.Probe("macro_free_history_input_checked")
 		}
 		probes++
 		// the compiled probe: main listing and nested bodies
